@@ -134,6 +134,37 @@ def concLine (bs maxSz : Nat) (drop : Bool) (reqs : List String) : String :=
     | _ => bad)
   " | ".intercalate outs
 
+/-- a read fails iff a non-empty range reaches past the end of the 4096-byte harness file -/
+def failsRead (rs : List Rng) : Bool := rs.any (fun r => !r.isEmpty && r.e > 4096)
+
+/-- `scen …`: scripted black-box scenario.  Awaited before the drop a request is answered as if it were alone (`err` if one of
+    its reads fails); after the drop it merely resolves (`done`).  `run` has no observable output. -/
+def scenLine (bs maxSz : Nat) (steps : List String) : String :=
+  let rec go (steps : List String) (reqs : List (String × List Rng)) (dropped : Bool) (outs : List String) : Option (List String) :=
+    match steps with
+    | [] => some outs.reverse
+    | st :: rest =>
+      match st.splitOn ":" with
+      | ["sub", name, _prio, rs] =>
+        match parseRanges rs with
+        | some rs => if dropped then none else go rest ((name, rs) :: reqs) dropped outs
+        | none => none
+      | ["run"] => go rest reqs dropped outs
+      | ["await", name] =>
+        match reqs.lookup name with
+        | some rs =>
+          let o := if dropped then "done"
+                   else if failsRead rs then "err"
+                   else showResp none (respond fileByte bs maxSz rs)
+          go rest (reqs.filter (fun x => x.1 != name)) dropped ((name ++ ": " ++ o) :: outs)
+        | none => none
+      | ["drop"] => if dropped then none else go rest reqs true ("drop: ok" :: outs)
+      | _ => none
+  match go steps [] false [] with
+  | some [] => "-"
+  | some outs => " ; ".intercalate outs
+  | none => bad
+
 def step (s : St) (line : String) : St × String :=
   match splitTokens line with
   | ["req", b, m, rs] =>
@@ -148,6 +179,11 @@ def step (s : St) (line : String) : St × String :=
       else (s, showResp (some (numIops bs mx (chunkAll ch rs))) (encRespond fileByte ch bs mx rs))
     | _, _, _, _ => (s, bad)
   | "q" :: rest => stepQ s rest
+  | "scen" :: c :: _b :: b :: m :: st :: steps =>
+    match kv c "cap", kv b "bs", kv m "max" with
+    | some cap, some bs, some mx =>
+      if mx = 0 || cap = 0 then (s, bad) else (s, scenLine bs mx (st :: steps))
+    | _, _, _ => (s, bad)
   | "conc" :: _c :: _b :: b :: m :: mode :: "|" :: rest =>
     match kv b "bs", kv m "max" with
     | some bs, some mx =>
